@@ -47,6 +47,40 @@ def mixedKinds (ts : List Tuple) : Bool :=
   | [] => false
   | t :: rest => rest.any (fun x => kindVec x != kindVec t)
 
+/-- Spec-level bookkeeping of *flush units* of one relation: `buf` = acknowledged tuples not yet written
+    to a batch file, `all` = everything acknowledged, `flag` = some batch file was written from tuples of
+    differing kind vectors (one buffer flushed as a unit, or a compaction merging all batches). -/
+structure Units where
+  buf : List Tuple := []
+  all : List Tuple := []
+  flag : Bool := false
+
+def Units.flush (u : Units) : Units := { u with flag := u.flag || mixedKinds u.buf, buf := [] }
+def Units.add (bufSize : Nat) (u : Units) (ts : List Tuple) : Units :=
+  let u1 := { u with buf := u.buf ++ ts, all := u.all ++ ts }
+  if u1.buf.length ≥ bufSize then u1.flush else u1
+
+/-- the flush units of relation `r` along the history prefix (immediate mode, no WAL limit: a buffer is
+    flushed when it reaches `buffer_size`, by save / compact / shutdown, and by the replay at a restart). -/
+def unitsOf (bufSize : Nat) (r : String) : Units → List (Op × String) → Units
+  | u, [] => u
+  | u, (.ins r' ts, tok) :: rest =>
+    unitsOf bufSize r (if r' == r && (tok.startsWith "+" || tok.startsWith "err:arrow") then u.add bufSize ts else u) rest
+  | u, (.del r' ts, tok) :: rest =>
+    unitsOf bufSize r (if r' == r && (tok.startsWith "-" || tok.startsWith "err:arrow") then u.add bufSize ts else u) rest
+  | u, (.save, _) :: rest | u, (.savekg, _) :: rest | u, (.restart, _) :: rest | u, (.shutdown, _) :: rest =>
+    unitsOf bufSize r u.flush rest
+  | u, (.compact, _) :: rest | u, (.compactIf _, _) :: rest =>
+    let u1 := u.flush
+    unitsOf bufSize r { u1 with flag := u1.flag || mixedKinds u1.all } rest
+  | u, _ :: rest => unitsOf bufSize r u rest
+
+/-- identifying predicate of the mixed-kinds family: tuples of differing kind vectors met **inside one
+    batch file** before (or at) this restart. Kinds that merely differ between separately flushed
+    batches are not covered — such data must survive. -/
+def mixedInOneBatch (bufSize : Nat) (r : String) (seen : List (Op × String)) : Bool :=
+  (unitsOf bufSize r {} (seen ++ [(Op.restart, "")])).flag
+
 def hasNull (ts : List Tuple) : Bool := ts.any (fun t => t.any (fun v => v == Value.null))
 def hasTs (ts : List Tuple) : Bool := ts.any (fun t => t.any (fun v => match v with | .ts _ => true | _ => false))
 def hasEmptyVec (ts : List Tuple) : Bool := ts.any (fun t => t.any (fun v => match v with | .vec [] => true | .vec8 [] => true | _ => false))
@@ -56,9 +90,9 @@ def hasInexact (tab : List (Value × Option Value)) (ts : List Tuple) : Bool :=
   ts.any (fun t => t.any (fun v => match tableGet tab v with | some (some w) => w != v | _ => false))
 
 /-- class of a failure concerning relation `r`, from the tuples its log received. Most specific first. -/
-def relClass (tab : List (Value × Option Value)) (ts : List Tuple) : String :=
+def relClass (tab : List (Value × Option Value)) (mixed : Bool) (ts : List Tuple) : String :=
   if hasArity0 ts then "zero_arity_tuple"
-  else if mixedKinds ts then "mixed_kinds_in_column"
+  else if mixed then "mixed_kinds_in_column"
   else if hasNull ts then "null_typed_column"
   else if hasEmptyVec ts then "empty_vector_column"
   else if hasTs ts then "timestamp_retyped_int64"
@@ -75,32 +109,32 @@ structure Mismatch where
 
 def sameMultiset (a b : List String) : Bool := sortBy strLe a == sortBy strLe b
 
-def judgeRestart (tab : List (Value × Option Value)) (seen : List (Op × String)) (idx : Nat) (tok : String) : List Mismatch :=
+def judgeRestart (tab : List (Value × Option Value)) (bufSize : Nat) (seen : List (Op × String)) (idx : Nat) (tok : String) : List Mismatch :=
   match parseRestartTok tok with
   | none => [⟨"unclassified", s!"unparsable-restart-token@{idx}"⟩]
   | some (_, none) =>
     -- the reopen failed: blame the first relation whose log explains it
-    let cs := ((relsOf seen).map (fun r => relClass tab (ackTuples r seen))).filter (fun c =>
+    let cs := ((relsOf seen).map (fun r => relClass tab (mixedInOneBatch bufSize r seen) (ackTuples r seen))).filter (fun c =>
       c == "zero_arity_tuple" || c == "mixed_kinds_in_column" || c == "null_typed_column" || c == "empty_vector_column")
     [⟨cs.headD "unclassified", s!"reopen-failed@{idx}"⟩]
   | some (pre, some post) =>
     (pre.filterMap (fun (p : String × List String) =>
       let q := ((post.find? (fun x => x.1 == p.1)).map (·.2)).getD []
       if sameMultiset p.2 q then none
-      else some ⟨relClass tab (ackTuples p.1 seen), s!"changed@{idx}:{p.1}"⟩))
+      else some ⟨relClass tab (mixedInOneBatch bufSize p.1 seen) (ackTuples p.1 seen), s!"changed@{idx}:{p.1}"⟩))
 
-def judge (tab : List (Value × Option Value)) : List (Op × String) → List (Op × String) → Nat → List Mismatch
+def judge (tab : List (Value × Option Value)) (bufSize : Nat) : List (Op × String) → List (Op × String) → Nat → List Mismatch
   | _, [], _ => []
   | seen, (o, tok) :: rest, i =>
     (match o with
-      | .restart | .shutdown => if tok == "dead" then [] else judgeRestart tab seen.reverse i tok
-      | _ => []) ++ judge tab ((o, tok) :: seen) rest (i + 1)
+      | .restart | .shutdown => if tok == "dead" then [] else judgeRestart tab bufSize seen.reverse i tok
+      | _ => []) ++ judge tab bufSize ((o, tok) :: seen) rest (i + 1)
 
-def spec (tab : List (Value × Option Value)) (ops : List Op) (impl : String) : String :=
+def spec (tab : List (Value × Option Value)) (bufSize : Nat) (ops : List Op) (impl : String) : String :=
   let toks := impl.splitOn " | "
   if toks.length != ops.length then (if ops.isEmpty then "na" else specFail "unclassified" "token-count")
   else
-    let ms := judge tab [] (ops.zip toks) 0
+    let ms := judge tab bufSize [] (ops.zip toks) 0
     match ms.find? (fun m => m.cls == "unclassified") with
     | some m => specFail m.cls m.detail
     | none => match ms with
@@ -119,7 +153,7 @@ def hist : Handler := fun args impl =>
   | cfg :: tab :: rest =>
     match parseHist (cfg :: rest), parseTable tab with
     | some (c, ops), some t =>
-      { model := histOutputWith (codecWith t) c ops, spec := spec t ops impl, nt := nontrivial ops false }
+      { model := histOutputWith (codecWith t) c ops, spec := spec t c.buffer ops impl, nt := nontrivial ops false }
     | _, _ => badReq
   | _ => badReq
 
